@@ -9,7 +9,7 @@ import (
 	"verif/vlib"
 )
 
-var vfC05Cfg = &vfGenCfg{MaxOps: 26, TwoWallets: true, BadPass: false,
+var vfC05Cfg = &vfGenCfg{MaxOps: 26, TwoWallets: true, BadPass: false, SignFresh: true,
 	Weights: map[string]int{"new": 3, "next": 7, "gen": 4, "remark": 0, "chpriv": 2, "chpub": 1, "delete": 1, "export": 1, "import": 1, "xfer": 3,
 		"lock": 2, "unlock": 6, "restart": 3, "sign": 14}}
 
@@ -42,7 +42,7 @@ func vfC05AtEnd(e *vfEnv) *vlib.Failure {
 
 var vfC05Spec = vlib.Spec[vfWProg]{
 	Prop: "C05", Name: "sign-verify",
-	Rule: "wallet histories with frequent sign requests (hash and message, both branches, foreign keys, wrong-length hashes, locked state); every history ends with lock, unlock and one signature per issued key; oracle: the signature verifies with the chain library (pocec) under exactly the requested key and digest (HashH(message) for messages), not under any other issued key nor another digest; requests while locked, for unknown keys or with a non-32-byte hash fail; non-trivial = a verified signature for a key that was issued while the wallet was locked (public derivation) or restored by import, or for an internal-branch key; distinct = distinct program JSON",
+	Rule: "wallet histories with frequent sign requests (hash and message, both branches, foreign keys, wrong-length hashes, locked state; two out of three issuances are followed at once by a request for the key just issued); every history ends with lock, unlock and one signature per issued key; oracle: the signature verifies with the chain library (pocec) under exactly the requested key and digest (HashH(message) for messages), not under any other issued key nor another digest; requests while locked, for unknown keys or with a non-32-byte hash fail; non-trivial = a verified signature for a key that was issued while the wallet was locked (public derivation) or restored by import, or for an internal-branch key; distinct = distinct program JSON",
 	Gen:  func(t *rapid.T) vfWProg { return vfGenWProg(t, vfC05Cfg) },
 	Run: func(p vfWProg, c *vlib.Ctx) *vlib.Failure {
 		e, f := vfRunWallet(&p, c, &vfOpt{AtEnd: vfC05AtEnd})
